@@ -2384,3 +2384,190 @@ def e_geometry(c):
     c.call(circular_overlap_grid, -2.0, 2.0, -2.0, 2.0, 5, 5, 1.5, 1, 5)
     c.call(elliptical_overlap_grid, -2.0, 2.0, -2.0, 2.0, 5, 5, 1.5, 1.0, 0.3, 1, 5)
     c.call(rectangular_overlap_grid, -2.0, 2.0, -2.0, 2.0, 5, 5, 2.0, 1.0, 0.3, 0, 5)
+
+
+# ----------------------------------------------------------------------
+# seventh layer: display / repr / copy / pickle round trips of every object kind; the object that owns the method is
+# snapshotted as a caller-owned object (sentinel: `self` for enumerated kinds, attribute bag for the others)
+# ----------------------------------------------------------------------
+def _bag(c, obj, name):
+    from pv.c10_sentinel import _AttrBag
+    if obj is not None:
+        c.own(_AttrBag(obj), name)
+    return obj
+
+
+def _roundtrips(c, obj):
+    import copy
+    import pickle
+    if obj is None:
+        return
+    c.call(repr, obj)
+    c.call(str, obj)
+    c.call(copy.copy, obj)
+    c.call(copy.deepcopy, obj)
+    c.call(lambda: pickle.loads(pickle.dumps(obj)))
+    for m in ('copy', 'deepcopy'):
+        f = getattr(obj, m, None)
+        if callable(f):
+            c.call(f)
+
+
+@entry('display_grids', slow=True)
+def e_display_grids(c):
+    from astropy.nddata import NDData
+    from photutils.psf import GriddedPSFModel
+    rng = c.rng
+    yy, xx = np.mgrid[-5:6, -5:6]
+    layout = ['1x1', 'nx1', '1xn', 'nxm'][int(rng.integers(0, 4))]
+    c.axes['display_grid_' + layout] = 1
+    pos = {'1x1': [(20, 20)], 'nx1': [(20, 0), (20, 20), (20, 40)], '1xn': [(0, 20), (20, 20), (40, 20)],
+           'nxm': [(0, 0), (20, 0), (40, 0), (0, 30), (20, 30), (40, 30)]}[layout]
+    psfs = []
+    for k in range(len(pos)):
+        s = c.sigma * (1 + 0.07 * k)
+        d = np.exp(-(xx ** 2 + yy ** 2) / (2 * s ** 2)) * (k + 2.0)
+        if rng.random() < 0.15:
+            d = np.zeros_like(d)                      # a blank ePSF (the `deltas` branch skips it)
+        psfs.append(d)
+    cube = c.arr(np.array(psfs), 'psf_cube', primary=True, unit=False, allow_int=False)
+    nd = c.call(NDData, cube, meta={'grid_xypos': pos, 'oversampling': int(rng.choice([1, 2]))})
+    if nd is None:
+        return
+    c.own(nd, 'nddata')
+    m = c.call(GriddedPSFModel, nd, flux=2.0, x_0=20.0, y_0=20.0)
+    if m is None:
+        return
+    c.own(m, 'psf_model')
+    for _ in range(3):
+        kw = dict(peak_norm=bool(rng.integers(0, 2)), deltas=bool(rng.integers(0, 2)),
+                  dividers=bool(rng.integers(0, 2)))
+        if rng.random() < 0.4:
+            kw['vmax_scale'] = float(rng.choice([0.5, 1.0, 2.0]))
+        c.call(m.plot_grid, ax=_ax(), **kw)
+    c.call(m.plot_grid, ax=_ax(), peak_norm=True)
+    c.call(m, c.plain(rng.uniform(15, 25, 5), 'x'), c.plain(rng.uniform(15, 25, 5), 'y'))     # evaluate AFTER plotting
+    _roundtrips(c, m)
+    c.read_all(m)
+
+
+@entry('display_methods', slow=True)
+def e_display_methods(c):
+    import glob as _g
+    import os
+    import photutils
+    import photutils.profiles as P
+    from photutils.aperture import ApertureStats, BoundingBox, CircularAperture
+    from photutils.background import Background2D, LocalBackground, MedianBackground
+    from photutils.detection import DAOStarFinder
+    from photutils.psf import STDPSFGrid, SourceGrouper
+    from photutils.segmentation import SourceCatalog, SourceFinder
+    from photutils.utils import CutoutImage, ImageDepth
+    rng = c.rng
+    aps = _pixel_apertures(c)
+    for ap in aps[:int(rng.integers(1, 4))]:
+        if ap is None:
+            continue
+        c.call(ap.plot, ax=_ax(), origin=(1.5, 0.5))
+        _roundtrips(c, ap)
+        ms = c.call(ap.to_mask)
+        if ms:
+            _bag(c, ms[0], 'aperture_mask_obj')
+            c.call(ms[0].to_image, c.shape)
+            _roundtrips(c, ms[0])
+            c.call(np.asarray, ms[0])
+        bb = c.call(lambda a=ap: a.bbox)
+        if bb:
+            c.call(bb[0].plot, ax=_ax())
+            _roundtrips(c, bb[0])
+    segm = _segm(c)
+    if segm is not None:
+        c.own(segm, 'segment_img')
+        c.call(segm.imshow, ax=_ax())
+        c.call(segm.imshow_map, ax=_ax())
+        c.call(segm.make_cmap, seed=3)
+        c.call(lambda: segm.cmap)
+        c.call(segm.to_patches, origin=(1, 2), scale=1.5)
+        c.call(segm.plot_patches, ax=_ax(), origin=(1, 2))
+        c.call(segm.to_regions)
+        c.call(lambda: segm.polygons)
+        _roundtrips(c, segm)
+        cat = c.call(SourceCatalog, c.data, segm, error=c.error, mask=c.mask, progress_bar=False)
+        if cat is not None:
+            _bag(c, cat, 'catalog_obj')
+            c.call(cat.plot_kron_apertures, ax=_ax())
+            c.call(cat.plot_circular_apertures, 3.0, ax=_ax())
+            _roundtrips(c, cat)
+            c.call(cat.to_table)
+        for seg in (segm.segments[:1] if segm.nlabels else []):
+            _roundtrips(c, seg)
+    x, y = c.xy[0]
+    for cls in ('RadialProfile', 'CurveOfGrowth'):
+        p = c.call(getattr(P, cls), c.data, (float(x), float(y)), c.plain(np.arange(1 if cls == 'CurveOfGrowth' else 0, 8.0), 'radii'),
+                   error=c.error, mask=c.mask)
+        if p is not None:
+            _bag(c, p, 'profile_obj')
+            c.call(p.plot, ax=_ax())
+            c.call(p.plot_error, ax=_ax())
+            c.call(getattr, p, 'profile')
+            c.call(p.plot, ax=_ax(), color='k')
+            _roundtrips(c, p)
+    b = c.call(Background2D, c.data, 9, mask=c.mask)
+    if b is not None:
+        _bag(c, b, 'background_obj')
+        c.call(b.plot_meshes, ax=_ax(), outlines=bool(rng.integers(0, 2)))
+        _roundtrips(c, b)
+    ap = c.call(CircularAperture, c.plain(c.xy, 'positions'), 4.0)
+    if ap is not None:
+        st = c.call(ApertureStats, c.data, ap, error=c.error, mask=c.mask)
+        if st is not None:
+            _bag(c, st, 'stats_obj')
+            c.call(getattr, st, 'sum')
+            _roundtrips(c, st)
+            c.call(st.to_table)
+    ci = c.call(CutoutImage, c.data, (float(y), float(x)), (9, 9))
+    if ci is not None:
+        _bag(c, ci, 'cutout_obj')
+        _roundtrips(c, ci)
+    for o in (c.call(DAOStarFinder, c.q(_thr(c)), c.fwhm), c.call(SourceGrouper, 4.0), c.call(MedianBackground),
+              c.call(LocalBackground, 4, 8), c.call(SourceFinder, 5, progress_bar=False),
+              c.call(ImageDepth, 3.0, napers=10, niters=1), c.call(BoundingBox, 1, 5, 2, 8)):
+        _roundtrips(c, o)
+    ddir = os.path.join(os.path.dirname(photutils.__file__), 'psf', 'tests', 'data')
+    files = sorted(_g.glob(os.path.join(ddir, 'STDPSF_*.fits')))
+    if files and rng.random() < 0.5:
+        g = c.call(STDPSFGrid, files[int(rng.integers(0, len(files)))])
+        if g is not None:
+            _bag(c, g, 'stdpsfgrid_obj')
+            c.call(g.plot_grid, ax=_ax(), peak_norm=bool(rng.integers(0, 2)), deltas=bool(rng.integers(0, 2)))
+            _roundtrips(c, g)
+
+
+@entry('display_isophote_epsf', slow=True)
+def e_display_iso_epsf(c):
+    from photutils.isophote import Ellipse, EllipseGeometry, EllipseSample
+    g, (x0, y0, eps, pa) = _galaxy(c)
+    geom = c.call(EllipseGeometry, x0, y0, 8.0, eps, pa)
+    ell = c.call(Ellipse, g, geom)
+    if geom is not None:
+        _roundtrips(c, geom)
+    if ell is not None:
+        iso = c.call(ell.fit_isophote, 8.0, maxit=6)
+        if iso is not None:
+            _bag(c, iso, 'isophote_obj')
+            _roundtrips(c, iso)
+            c.call(iso.to_table)
+        _roundtrips(c, ell)
+    s = c.call(EllipseSample, g, 6.0, x0=x0, y0=y0, eps=eps, position_angle=pa)
+    if s is not None:
+        c.call(s.extract)
+        _bag(c, s, 'sample_obj')
+        _roundtrips(c, s)
+    nd, stars = _stars(c)
+    if stars is not None:
+        c.own(stars, 'stars')
+        _roundtrips(c, stars)
+        for st in list(stars)[:1]:
+            _roundtrips(c, st)
+    m = _psf_model(c)
+    _roundtrips(c, m)
